@@ -375,6 +375,20 @@ func ExtractFacts(srcPath, dstPath, rel string) (*Facts, error) {
 
 	scope := pkg.Types.Scope()
 	f.ScopeNames = scope.Names()
+	// the method names of the file's interfaces are looked up on receiver types (name collisions)
+	for _, name := range scope.Names() {
+		if tn, ok := scope.Lookup(name).(*types.TypeName); ok {
+			if it, ok := tn.Type().Underlying().(*types.Interface); ok {
+				for i := 0; i < it.NumMethods(); i++ {
+					id := it.Method(i).Name()
+					if !seenWord["id:"+id] {
+						seenWord["id:"+id] = true
+						notationIdents = append(notationIdents, id)
+					}
+				}
+			}
+		}
+	}
 	var operandTypes []types.Type
 	for _, name := range scope.Names() {
 		obj := scope.Lookup(name)
